@@ -37,6 +37,12 @@ CHECKS = {
  "C20": dict(cat="exploration", tech="multiset conservation oracle (recorded key generations == publications) over histories of the real polling step on the in-memory Postgres",
    text="The real eonPubKeyHandler polling step runs against pgmem; 0..4 key generations per tick are recorded through the repository's own queries (several keyper sets, restarts, any order, all scan orders), in broadcast (signature verified) and callback mode; after the last tick the multiset of publications must equal the multiset of recorded key generations and nothing may be left pending.",
    note="Go toolchain; pgmem (in-memory PostgreSQL substitute, repository DB tests pass against it); the keyper verif hook VerifNewEonPubKeyHandler", ref="§3 C20"),
+ "C04": dict(cat="exploration", tech="label-based reference predicate compared call-by-call with the real combined topic validator; statement-trace monitor (no writes during validation); snapshot comparison (rejected => unchanged database, no output)",
+   text="A real core-keyper handler set on a real P2PMessaging (on pgmem) receives labelled shares/keys messages built by 0..3 field mutations against 7 receiver database states (plus correct/different key already stored); the combined validator must accept exactly what the reference predicate (evaluated on construction labels) admits, must issue no write statement, and a non-accepted message must leave the database dump unchanged and produce no outgoing message; accepted messages must be stored.",
+   note="Go toolchain; pgmem; gossipnet node (real handlers, registration order mirrored from keyper.Start); fixtures.EonKeys; the p2p verif hook VerifCombinedValidator", ref="§3 C04"),
+ "C05": dict(cat="exploration", tech="panic guard + process journal + exact allocation meter + watchdog around real validate/handle of hostile gossip bytes for every node flavour",
+   text="Six node flavours (core, Gnosis, Shutter-service, Primev, snapshot keyper, Gnosis access node) built from the repository's real handler sets receive structure-aware hostile inputs (boundary values per field, parallel-list length mismatches, wrong/empty flavour extras, short signatures, re-signed by a legitimate keyper so that handlers are reached) and raw/truncated/bit-flipped bytes, against 7 database states: no panic, no process death, allocation <= 16MiB+256*len, completion.",
+   note="Go toolchain; pgmem; gossipnet nodes (libp2p replaced by direct delivery to validator + Handle); verif hooks for handler constructors", ref="§3 C05"),
 }
 
 NOT_APPLICABLE = {
